@@ -15,7 +15,10 @@ for mp in sorted(glob.glob('/verif/seeded/*/meta.json')):
     m = json.load(open(mp))
     what = m.get('what') or m['name'][6:].replace('-', ' ')
     tried.setdefault(m['property'], []).append(what + ': ' + m.get('needs', ''))
+only = set(os.environ.get('ROUND_PROPS','').split()) 
 for pid, p in props.items():
+    if only and pid not in only:
+        continue
     wt = f'/tmp/wt/{prefix}' + pid.lower()
     whole = pid in ('C11', 'C20', 'C23', 'C24', 'C25', 'C26')
     extra = ''
